@@ -517,6 +517,21 @@ impl Gen {
                         10 => Op { op: "b_into_mut".into(), h, ..Default::default() },
                         11 | 12 => Op { op: "b_try_into_mut".into(), h, ..Default::default() },
                         13 | 14 => Op { op: "drop".into(), h, ..Default::default() },
+                        15 if self.r.chance(50) => {
+                            // clone_from another Bytes handle, preferably one at the same address or on the same buffer
+                            let me = m.view(h);
+                            let bs: Vec<usize> = live.iter().copied().filter(|&g| g != h && matches!(m.hs[g], Some(H::B(_)))).collect();
+                            if bs.is_empty() {
+                                continue;
+                            }
+                            let near: Vec<usize> = bs
+                                .iter()
+                                .copied()
+                                .filter(|&g| m.view(g).map(|w| me.as_ref().map(|v| (v.a == w.a || v.a2 == w.a || v.a == w.a2) && w.a != -100).unwrap_or(false)).unwrap_or(false))
+                                .collect();
+                            let o = if !near.is_empty() && self.r.chance(75) { near[self.r.below(near.len())] } else { bs[self.r.below(bs.len())] };
+                            Op { op: "b_clone_from".into(), h, o, ..Default::default() }
+                        }
                         _ => continue,
                     };
                     return op;
